@@ -14,7 +14,10 @@ from mc import core, env
 
 import logging
 
+import os as _os
+
 _LOGGER = logging.getLogger("verif-sm")
+_MONITORS_ONLY = bool(_os.environ.get("VERIF_SM_MONITORS_ONLY"))
 LONG = "long"
 ADVANCES = (0, 1, 2, 3, LONG)
 ALL_SIGS = [()] + [p for r in (1, 2, 3) for p in itertools.permutations(("tm", "state_tm", "initial_call"), r)]
@@ -585,6 +588,11 @@ def run_execution(sh, ch, nops, maxdev, want_key=False, actions_from=0, opset=No
             step_err = ("crash", _why(model), f"{type(crashed).__name__}: {crashed}")
         else:
             step_err = compare(sh, op, real, model, now)
+        if step_err and _MONITORS_ONLY and "crash" not in step:
+            # self-test switch (VERIF_SM_MONITORS_ONLY=1): ignore the reference model, so that the clause monitors can be
+            # shown to catch known defects on their own
+            step["other_disagreement"] = list(step_err)
+            step_err = None
         if step_err:
             if want is None or "crash" in step or (props_of(step_err[0], step_err[1], sh["auto"]) & want):
                 break
@@ -808,6 +816,53 @@ def monitors(sh, trace):
                 out.append(("C04", "executing-while-running", f"step {i}: {calls[-1][1]} ran and the machine did not stop, but is_executing is False"))
         engaged_since = False
         last_stop_after_engage = False
+    out += chain_monitor(sh, trace)
+    return out
+
+
+def chain_monitor(sh, trace):
+    """C02, last sentence, transcribed directly: in a continuously engaged run without explicit transitions, stops or duration edits,
+    every timed state is entered exactly when its predecessor's duration has elapsed (entry instant = now - state_tm), so a chain lasts
+    the sum of its durations whatever the clock steps, and repetitions of a cycle are equally long."""
+    if sh["auto"]:
+        return []
+    by = {s["name"]: s for s in sh["states"]}
+    if any(s.get("over") for s in sh["states"]):
+        return []
+    entries = []  # (state, absolute entry instant)
+    pending_engage = False
+    for st in trace:
+        op = st["op"]
+        if "crash" in st:
+            return []
+        if op[0] == "engage":
+            if op[1] or op[2]:
+                return []
+            pending_engage = True
+            continue
+        if op[0] != "exec":
+            return []  # done / on_disable / duration edit: not a plain continuous run
+        if not pending_engage or any(a[0] != "none" for a in st["acts"]):
+            return []
+        pending_engage = False
+        now = F(st["now"])
+        for e in st["real"]["events"]:
+            if e[0] != "call" or by[e[1]]["kind"] == "default":
+                continue
+            kw = e[3]
+            if kw.get("initial_call") and "state_tm" in kw:
+                entries.append((e[1], now - F(kw["state_tm"]), now))
+    out = []
+    for (a, ta, _na), (b, tb, nb) in zip(entries, entries[1:]):
+        sa = by[a]
+        if sa["kind"] != "timed":
+            continue
+        d = F(sa["dur"], 64)
+        nxt = sa["next"] if sa["next"] is not None else next(s["name"] for s in sh["states"] if s["first"])
+        if b != nxt:
+            out.append(("C02", "chain-successor", f"after timed state {a} the next state entered is {b}, expected {nxt}"))
+        elif tb != ta + d:
+            out.append(("C02", "chain-drift", f"{a} was entered at {ta} with duration {d}; its successor {b} was entered at {tb} (observed at {nb}), expected {ta + d}"))
     return out
 
 
